@@ -33,3 +33,22 @@ for _tag, _name, _key, _rows, _want in (
 for _tag, _name, _key, _rows in (("no_row_for_the_population", "q", "elderly", ("adults", "children")), ("a_pair_without_data", "age", ("5-14", "0-4"), ()), ("an_unknown_name", "nothing", "adults", ()), ("no_name", None, "adults", ())):
     CONTRACTS["data:ProjectData.get_ts#%s" % _tag] = dict(
         schema=schema, make_env=_env(_name, _key, _rows), ensures=[("C15+C20.no_series_means_none", "result is None")], defined_props=["C15", "C20"])
+
+
+# ---- ProjectData.start_year / end_year (C03: the simulation is aligned with the years of the databook): the earliest / latest year column of any table -- quantity tables,
+# transfers and interactions alike; tables without year columns do not count
+def _env_years(it):
+    import numpy as np
+    from pyvc.interp import PyObjV
+    from pyvc import source
+
+    em = source.load("excel")
+    t = lambda cls, years: PyObjV(cls, em, {"tvec": np.array(years, dtype=float)})
+    return {"self": PyObjV("ProjectData", source.load("data"), {"tdve": {"q": t("TimeDependentValuesEntry", [2005.0, 2010.0]), "r": t("TimeDependentValuesEntry", [])}, "transfers": [t("TimeDependentConnections", [2001.0, 2003.0])],
+                                                                "interpops": [t("TimeDependentConnections", [2004.0, 2012.5])]})}
+
+
+_all_tables = {"self.tables": (lambda it: list(it.live_env["self"].fields["tdve"].values()) + it.live_env["self"].fields["transfers"] + it.live_env["self"].fields["interpops"]),   # the iterator over all tables is a ghost
+               "np.amin": (lambda it, a: float(min(a))), "np.amax": (lambda it, a: float(max(a)))}
+CONTRACTS["data:ProjectData.start_year"] = dict(schema=schema, make_env=_env_years, call_stubs=_all_tables, ensures=[("C03+C16.the_start_year_is_the_earliest_year_column_of_any_table", "result == 2001.0")], defined_props=["C03", "C16"])
+CONTRACTS["data:ProjectData.end_year"] = dict(schema=schema, make_env=_env_years, call_stubs=_all_tables, ensures=[("C03+C16.the_end_year_is_the_latest_year_column_of_any_table", "result == 2012.5")], defined_props=["C03", "C16"])
